@@ -25,6 +25,10 @@ pub fn play_computer(depth: u8, player_color: Color) {
                 println!("stalemate!");
                 break;
             }
+            Some(GameEnding::Draw) => {
+                println!("draw!");
+                break;
+            }
             _ => (),
         };
 
